@@ -34,6 +34,7 @@ def run(ctx):
     machine = Machine("x86_32")
     items, meta = [], []
     selftest = []
+    shapes = {}
     other = {}
     nsol = 0
     for n in range(90 if q else 900):
@@ -41,11 +42,42 @@ def run(ctx):
         src = gen.function(nseg=rng.randrange(2, 5))
         if re.search(r"PTR \[E(?!SP)", src):
             continue                      # a load through a random register pointer: unmapped in the emulator
+        shape = n % 4
+        if shape == 1:
+            # a table lookup through an input-dependent pointer: the branch condition reads memory at a symbolic address
+            mask = rng.choice([1, 3, 7])
+            off = rng.choice([0, 0x10, 0x123])
+            table = [X.mem_byte(DATA + off + i, 0) for i in range(mask + 2)]
+            src = ("main:\n    AND EAX, 0x%X\n    MOVZX ECX, BYTE PTR [EAX+0x%X]\n    CMP ECX, 0x%X\n    JNZ T1\n    MOV EBX, 0x1\nT1:\n"
+                   % (mask, DATA + off, 0)) + src.split("main:\n", 1)[1]
+            table_cmp = True
+        elif shape == 2:
+            # a signed / unsigned byte division of an input-dependent dividend
+            d = rng.choice([0x40, 0x7F, 0x11, 0x9, 0x20])
+            k = rng.choice([8, 0xF8, 0, 1, 0x3FF // d, 0x200 // d, 0xFF])
+            src = ("main:\n    AND EAX, 0x3FF\n    MOV ECX, 0x%X\n    %s CL\n    CMP AL, 0x%X\n    JZ T1\n    INC EBX\nT1:\n"
+                   % (d, rng.choice(["IDIV", "IDIV", "DIV"]), k)) + src.split("main:\n", 1)[1]
+            table_cmp = False
+        else:
+            table_cmp = False
         try:
             loc_db, lifter, cfg, head, make = asmgen.build(machine, src, base=BASE)
         except Exception:
             continue
         seed = rng.randrange(256)
+        if table_cmp:
+            # compare with: an entry of the table, the byte just after the reachable entries, or a value that is nowhere
+            m_ = re.search(r"AND EAX, 0x(\w+)\n    MOVZX ECX, BYTE PTR \[EAX\+0x(\w+)\]", src)
+            mask, tbase = int(m_.group(1), 16), int(m_.group(2), 16)
+            entries = [X.mem_byte(tbase + i, seed) for i in range(mask + 1)]
+            beyond = X.mem_byte(tbase + mask + 1, seed)
+            nowhere = [v for v in range(256) if v not in entries]
+            k = rng.choice([rng.choice(entries), beyond, rng.choice(nowhere), rng.choice(nowhere)])
+            src = src.replace("CMP ECX, 0x0\n", "CMP ECX, 0x%X\n" % k, 1)
+            try:
+                loc_db, lifter, cfg, head, make = asmgen.build(machine, src, base=BASE)
+            except Exception:
+                continue
         inputs = {r: (rng.choice(X.boundary_values(32)) if rng.random() < 0.4 else rng.getrandbits(32)) for r in REGS}
         jit = machine.jitter(loc_db, "python")
         jit.init_stack()
@@ -100,10 +132,21 @@ def run(ctx):
         sizes["IRDst"] = 32
         for r in REGS + ["ESP", "EBP"]:
             sizes[r] = 32
+        # every IR block (also the intermediate ones of instructions lifted to several blocks) gets the address range of the
+        # assembly block it comes from
         ranges = []
+        seen_locs = set()
         for b in cfg.blocks:
             lo, hi = b.get_range()
-            ranges.append({"loc": J.loc_name(b.loc_key), "lo": lo, "hi": hi})
+            tmp = lifter.new_ircfg()
+            lifter.add_asmblock_to_ircfg(b, tmp)
+            for lk in tmp.blocks:
+                if lk not in seen_locs:
+                    seen_locs.add(lk)
+                    ranges.append({"loc": J.loc_name(lk), "lo": lo, "hi": hi})
+        for lk in ircfg.blocks:
+            if lk not in seen_locs:
+                ranges.append({"loc": J.loc_name(lk), "lo": 0, "hi": 0})
         sols = []
         first_env = None
         for key, model in dse.new_solutions.items():
@@ -136,6 +179,7 @@ def run(ctx):
         if not sols:
             continue
         nsol += len(sols)
+        shapes[shape] = shapes.get(shape, 0) + len(sols)
         items.append({"t": "dse", "prog": prog, "start": J.loc_name(head), "w": 32, "budget": 60, "ranges": ranges,
                       "sols": [{k: v for k, v in s_.items() if k != "inputs"} for s_ in sols]})
         meta.append((src, {r: hex(v) for r, v in inputs.items()}, [(s_["dst"], hex(s_["prev"]), s_["inputs"]) for s_ in sols]))
@@ -163,6 +207,8 @@ def run(ctx):
         ctx.sample({"source": meta[k][0][:300], "first_inputs": meta[k][1], "solutions": meta[k][2][:2], "tlc_verdict": verdicts[k]})
     ctx.notes["verdicts"] = counts
     ctx.notes["new_inputs_judged"] = nsol
+    ctx.notes["new_inputs_per_shape"] = {"random structure": shapes.get(0, 0) + shapes.get(3, 0), "table lookup through a symbolic pointer": shapes.get(1, 0),
+                                         "byte division of a symbolic dividend": shapes.get(2, 0)}
     ctx.notes["runs_that_raised_something_else"] = other
     if not nsol:
         raise core.MachineryError("no solution was produced: nothing was judged")
